@@ -93,7 +93,6 @@ type c09Outcome struct {
 // c09Table evaluates the table; ok is false when the evaluator does not have the shape the evaluation
 // needs (no directive loop with a boolean accumulator, no Name() call in it).
 func c09Table(c *Ctx, r *Report, ev *ssa.Function) bool {
-	c09Prog = c
 	// the vars parameter
 	var varsP *ssa.Parameter
 	for _, p := range ev.Params {
@@ -143,7 +142,7 @@ func c09Table(c *Ctx, r *Report, ev *ssa.Function) bool {
 		{"deprecated", "literal", true, "old", false, "C09.STICKY", "a directive other than @skip / @include leaves the decision as it was"},
 	}
 	for _, cs := range cases {
-		outs, why := c09Eval(ev, loop, acc, varsP, cs)
+		outs, why := c09Eval(c, ev, loop, acc, varsP, cs)
 		key := fmt.Sprintf("%s: %s", fnName(ev), cs.label)
 		if why != "" {
 			r.undecided(cs.rule, key, ev.Pos(), "the evaluation of one iteration of the directive loop did not finish: "+why)
@@ -191,10 +190,7 @@ func c09Show(v cval, old *bool) string {
 	return "a value the propagation cannot determine"
 }
 
-// c09Prog: the program the evaluator reads package-level tables from.
-var c09Prog *Ctx
-
-func c09Eval(ev *ssa.Function, loop *loopInfo, acc *ssa.Phi, varsP *ssa.Parameter, cs c09Case) ([]c09Outcome, string) {
+func c09Eval(c09Prog *Ctx, ev *ssa.Function, loop *loopInfo, acc *ssa.Phi, varsP *ssa.Parameter, cs c09Case) ([]c09Outcome, string) {
 	start := &c09Path{blk: loop.head, env: map[ssa.Value]cval{}, tup: map[ssa.Value][]cval{}}
 	start.env[acc] = cval{k: cvOld}
 	work := []*c09Path{start}
